@@ -226,6 +226,7 @@ func visitInstr(fr *frame, instr ssa.Instruction) continuation {
 	case *ssa.Go:
 		fn, args := prepareCall(fr, &instr.Call)
 		E.spawn(fn, args, instr.Pos())
+		E.preemptPoint(fr.g, "statement after go")
 
 	case *ssa.MakeChan:
 		n := concInt(fr.get(instr.Size), true)
